@@ -28,6 +28,10 @@ def configs(tier):
         c.append(("tp=%s,script=S1,ma=b,mb=b,%s" % (tp, M), dq if q else dt))
         c.append(("tp=%s,script=S3,ma=b,mb=b,%s" % (tp, M), (dq if q else dt) - 1))
         c.append(("tp=%s,script=S2,ma=b,mb=nb,%s" % (tp, M), (dq if q else dt) - 1))
+        # the peer sends, flushes and closes; this end first writes into the closed connection (EPIPE) and only then
+        # reads: everything the peer had accepted must still come out before the end-of-stream, however recv() cuts it
+        c.append(("tp=%s,script=S5,style=spec,%s" % (tp, M), dq if q else dt - 1))
+        c.append(("tp=%s,script=S5,ma=b,mb=b,%s" % (tp, M), (dq if q else dt) - 1))
         # retry policies after EAGAIN
         for pol in ("same", "longer", "different", "shorter"):
             c.append(("tp=%s,script=R1,retry=%s,%s" % (tp, pol, M), dq if q else min(dt, 4)))
